@@ -3,7 +3,7 @@
 `pub fn parse`, `impl Parse { syntax_node, source_file, errors }`, `impl rowan::Language for Language { kind_from_raw,
 kind_to_raw }` (and the one-line `impl From<SyntaxKind> for rowan::SyntaxKind` of syntax_kind.rs that kind_to_raw goes through)
 rendered statement by statement with the parser of t_astmethods.py (t_lineindex's + extensions) over the GENERATED
-constructors g_new (lexer.rs), gp_new (preprocessor.rs), gpr_new / gpr_finish (parser.rs) and model/RowanApi.v.
+constructors g_new (lexer.rs), gp_new (preprocessor.rs), gpr_new / gpr_finish (parser.rs) and model/LibGlueApi.v.
 `grammar::source_file(&mut parser)` is the grammar program: the rendering takes the interpreter run as a parameter
 (`run_source_file : gps -> gres`, instantiated with GenParserEq.ggexec .. (ECall entry None) []).
 The subset is exactly what these six functions use; anything else raises TranslateError (a broken tie)."""
@@ -134,7 +134,7 @@ def translate(repo):
     o = ["(* GENERATED by tools/translate/t_libglue.py from crates/syntax/src/lib.rs (+ From<SyntaxKind> of syntax_kind.rs) -- do not edit *)",
          "From Coq Require Import List NArith Bool String.",
          "From TG.Gen Require Import GenTokens GenLexer GenPrep GenParser.",
-         "From TG.Model Require Import Chars Tree ScanMonad PrepMonad ParserPrims ParserMonad GInterp AstToCore RowanApi.",
+         "From TG.Model Require Import Chars Tree ScanMonad PrepMonad ParserPrims ParserMonad GInterp LibGlueApi.",
          "From TG.Proofs Require Import GenParserEq.", "Import ListNotations.", ""]
     o.append("(* struct Parse *)\nRecord parse_rec := mk_parse { pr_green : tree; pr_errors : list syntax_error }.\n")
     o.append("(* fn parse *)\n" + render_parse(fns["parse"]))
@@ -143,13 +143,13 @@ def translate(repo):
     if not (t[0] == "call" and is_path(t[1], "SyntaxNode", "new_root") and len(t[2]) == 1 and t[2][0][0] == "mcall"
             and t[2][0][2] == "clone" and t[2][0][1][0] == "field" and is_path(t[2][0][1][1], "self") and t[2][0][1][2] == "green_node"):
         fail(SRC, fns["syntax_node"], "expected SyntaxNode::new_root(self.green_node.clone())")
-    o.append("(* fn Parse::syntax_node *)\nDefinition glib_syntax_node (self_ : parse_rec) : lnode := rw_new_root (pr_green self_).\n")
+    o.append("(* fn Parse::syntax_node *)\nDefinition glib_syntax_node (self_ : parse_rec) : lib_node := rw_new_root (pr_green self_).\n")
     # Parse::source_file
     t = single_tail(SRC, fns["source_file"])
     if not (t[0] == "call" and t[1][0] == "path" and len(t[1][1]) == 3 and t[1][1][0] == "ast" and t[1][1][2] == "cast"
             and len(t[2]) == 1 and t[2][0][0] == "mcall" and is_path(t[2][0][1], "self") and t[2][0][2] == "syntax_node"):
         fail(SRC, fns["source_file"], "expected ast::<Struct>::cast(self.syntax_node())")
-    o.append("(* fn Parse::source_file *)\nDefinition glib_source_file (self_ : parse_rec) : option lnode := ast_cast S_%s (glib_syntax_node self_).\n" % t[1][1][1])
+    o.append("(* fn Parse::source_file *)\nDefinition glib_source_file (self_ : parse_rec) : option lib_node := ast_cast S_%s (glib_syntax_node self_).\n" % t[1][1][1])
     # Parse::errors
     t = single_tail(SRC, fns["errors"])
     if not (t[0] == "un" and t[1] == "&" and t[2][0] == "field" and is_path(t[2][1], "self") and t[2][2] == "errors"):
@@ -180,6 +180,6 @@ def translate(repo):
     if not ok:
         fail(SRC, f, "expected `assert!(raw.0 < SyntaxKind::__LAST as u16); unsafe { std::mem::transmute(raw.0) }`")
     o.append("(* fn Language::kind_from_raw: None = panic (the assert!, or transmute outside the enum) *)\n"
-             "Definition glib_kind_from_raw (raw : nat) : am SyntaxKind :=\n"
-             "  if Nat.ltb raw sk_last then sk_transmute raw else am_panic.\n")
+             "Definition glib_kind_from_raw (raw : nat) : lm SyntaxKind :=\n"
+             "  if Nat.ltb raw sk_last then sk_transmute raw else lm_panic.\n")
     return {"GenLibGlue.v": "\n".join(o)}
